@@ -15,6 +15,7 @@ Record case := {
   k_disk : list uri;               (* documents that exist on disk *)
   k_disk_txt : txt;                (* the content of every on-disk document (harness convention) *)
   k_init : list (uri * txt);       (* analysed text before the history (observed) *)
+  k_reload : bool;                 (* the history contains a workspace reload *)
   k_hist : list notif;
   k_obs : list (uri * (option txt * option txt))   (* uri, (editor text, analysed text) after quiescence *)
 }.
@@ -31,6 +32,20 @@ Definition predicted (k : case) : docs :=
               disk_text := fun u => if mem u (k_disk k) then Some (k_disk_txt k) else None |} in
   apply_all e (k_hist k) {| d_open := fun _ => None; d_vfs := lookup (k_init k) |}.
 
+(** With a reload in the history the prediction is that of [last_text_wins_across_reload]: the
+    editor texts are the message-order result; a workspace document is analysed with its editor
+    text, or with its disk content when it is closed; a document outside the workspace is not
+    analysed. *)
+Definition predicted_vfs (k : case) (d : docs) (u : uri) : option txt :=
+  if k_reload k then
+    if mem u (k_ws k) then
+      match d_open d u with
+      | Some t => Some t
+      | None => if mem u (k_disk k) then Some (k_disk_txt k) else None
+      end
+    else None
+  else d_vfs d u.
+
 Definition check_case (k : case) : bool :=
   let d := predicted k in
-  forallb (fun p => opt_eqb (d_open d (fst p)) (fst (snd p)) && opt_eqb (d_vfs d (fst p)) (snd (snd p))) (k_obs k).
+  forallb (fun p => opt_eqb (d_open d (fst p)) (fst (snd p)) && opt_eqb (predicted_vfs k d (fst p)) (snd (snd p))) (k_obs k).
